@@ -144,6 +144,26 @@ Definition full_rune (p : bytes) : bool :=
 Record bufrd := mkB { b_pre : bytes; b_data : bytes; b_err : option ioerr; b_lastrune : option nat }.
 Definition b_init : bufrd := mkB [] [] None None.
 
+(* What ReadLine makes of ReadSlice's (line, err): the (line, isPrefix, err) it returns and
+   whether it puts a trailing '\r' back into the buffer. *)
+Definition rl_post (line : bytes) (oe : option ioerr) : (bytes * bool * option ioerr) * bool :=
+  match oe with
+  | Some IoBufferFull =>
+      if negb (is_nil line) && Byte.eqb (last line x00) CR
+      then ((removelast line, true, None), true)
+      else ((line, true, None), false)
+  | _ =>
+      match line with
+      | [] => (([], false, oe), false)
+      | _ =>
+          if Byte.eqb (last line x00) NL then
+            let l1 := removelast line in
+            let l2 := if negb (is_nil l1) && Byte.eqb (last l1 x00) CR then removelast l1 else l1 in
+            ((l2, false, None), false)
+          else ((line, false, None), false)
+      end
+  end.
+
 Section Bufio.
   Variable St : Type.
   Variable sread : St -> nat -> rres * St.     (* the wrapped io.Reader *)
@@ -268,57 +288,44 @@ Section Bufio.
   Definition read_line (fuel : nat) (b : bufrd) (x : St)
     : outcome ((bytes * bool * option ioerr) * (bufrd * St)) :=
     match read_slice fuel 0 b x with
-    | Ok ((line, Some IoBufferFull), (b', x')) =>
-        match last line x00, is_nil line with
-        | c, false =>
-            if Byte.eqb c CR then
-              (* put the '\r' back *)
-              match b_pre b' with
-              | [] => Panic 2      (* "bufio: tried to rewind past start of buffer" *)
-              | _ => Ok ((removelast line, true, None),
-                         (mkB (removelast (b_pre b')) (lastn 1 (b_pre b') ++ b_data b') (b_err b') (b_lastrune b'), x'))
-              end
-            else Ok ((line, true, None), (b', x'))
-        | _, true => Ok ((line, true, None), (b', x'))
-        end
-    | Ok ((line, oe), st) =>
-        match line with
-        | [] => Ok (([], false, oe), st)
-        | _ =>
-            if Byte.eqb (last line x00) NL then
-              let l1 := removelast line in
-              let l2 := if (negb (is_nil l1)) && Byte.eqb (last l1 x00) CR then removelast l1 else l1 in
-              Ok ((l2, false, None), st)
-            else Ok ((line, false, None), st)
-        end
+    | Ok ((line, oe), (b', x')) =>
+        let '(res, rewind) := rl_post line oe in
+        if rewind then
+          (* put the '\r' back: b.r-- *)
+          match b_pre b' with
+          | [] => Panic 2      (* "bufio: tried to rewind past start of buffer" *)
+          | _ => Ok (res, (mkB (removelast (b_pre b')) (lastn 1 (b_pre b') ++ b_data b') (b_err b') (b_lastrune b'), x'))
+          end
+        else Ok (res, (b', x'))
     | Panic p => Panic p
     | OutOfFuel => OutOfFuel
     end.
 
-  (* go-corelib ios.ByteReadLine: inl err | inr line (an empty line is returned as nil) *)
-  Fixpoint byte_read_line (fuel : nat) (acc : bytes) (b : bufrd) (x : St)
+  (* go-corelib ios.ByteReadLine: inl err | inr line (an empty line is returned as nil).
+     gas: fuel handed to every ReadLine; fuel: bound on the number of fragments. *)
+  Fixpoint byte_read_line (gas fuel : nat) (acc : bytes) (b : bufrd) (x : St)
     : outcome ((ioerr + bytes) * (bufrd * St)) :=
     match fuel with
     | O => OutOfFuel
     | S k =>
-        match read_line (S k) b x with
+        match read_line gas b x with
         | Ok ((l, more, Some e), st) => Ok (inl e, st)        (* return nil, err: acc is dropped *)
         | Ok ((l, more, None), (b', x')) =>
-            if more then byte_read_line k (acc ++ l) b' x' else Ok (inr (acc ++ l), (b', x'))
+            if more then byte_read_line gas k (acc ++ l) b' x' else Ok (inr (acc ++ l), (b', x'))
         | Panic p => Panic p
         | OutOfFuel => OutOfFuel
         end
     end.
 
   (* the consumer of the fixed-length readers: ByteReadLine until the first error *)
-  Fixpoint read_lines (fuel : nat) (b : bufrd) (x : St) : outcome (list bytes * ioerr) :=
+  Fixpoint read_lines (gas fuel : nat) (b : bufrd) (x : St) : outcome (list bytes * ioerr) :=
     match fuel with
     | O => OutOfFuel
     | S k =>
-        match byte_read_line (S k) [] b x with
+        match byte_read_line gas (S k) [] b x with
         | Ok (inl e, _) => Ok ([], e)
         | Ok (inr l, (b', x')) =>
-            match read_lines k b' x' with
+            match read_lines gas k b' x' with
             | Ok (ls, e) => Ok (l :: ls, e)
             | o => o
             end
@@ -649,7 +656,7 @@ Definition check_case (c : ccase) : bool :=
       | _ => false
       end
   | CLines N src lines e =>
-      outcome_is lines_res_eqb (read_lines source io_read N (src_fuel src) b_init src) (lines, e)
+      outcome_is lines_res_eqb (read_lines source io_read N (src_fuel src) (src_fuel src) b_init src) (lines, e)
   | CBRR search replace src caps obs =>
       outcome_is (list_eqb rres_eqb)
         (reads (brr_over io_read search replace (src_fuel src)) (brr_init, src) caps) obs
@@ -665,7 +672,7 @@ Definition check_case (c : ccase) : bool :=
       | Ok (inl e1, _) => opt_eqb ioerr_eqb probe (Some e1) && is_nil lines
       | Ok (inr b, src') =>
           is_none probe
-          && outcome_is lines_res_eqb (read_lines source io_read 4096 (src_fuel src) b src') (lines, e)
+          && outcome_is lines_res_eqb (read_lines source io_read 4096 (src_fuel src) (src_fuel src) b src') (lines, e)
       | _ => false
       end
   | CStackEDI delim esc src probe toks e =>
@@ -683,3 +690,82 @@ Definition check_case (c : ccase) : bool :=
       | _ => false
       end
   end.
+
+(* ---- pure stream functions: what the buffered layers compute, as functions of the bytes ------- *)
+(* An abstract stream: all the bytes still to come, and what follows them.  The functions below
+   are the F_K of the chunk-invariance theorems: the concrete layers over ANY chunking of the
+   same bytes compute exactly these (Proofs/Chunk*.v). *)
+Definition astream := (bytes * tail)%type.
+
+(* Outside the guard no_tail_hazard (known finding F22): a final unterminated piece that fills
+   the buffer exactly at the end of the data.  There bufio.ReadSlice answers ErrBufferFull or
+   (data, err) depending on whether the error arrived together with the last bytes. *)
+Definition HAZARD : N := 22.
+
+Definition a_read_slice (N : nat) (a : astream) : outcome ((bytes * option ioerr) * astream) :=
+  let '(data, t) := a in
+  match index_byte NL (firstn N data) with
+  | Some i => Ok ((firstn (S i) data, None), (skipn (S i) data, t))
+  | None =>
+      if length data =? N then Panic HAZARD
+      else if N <? length data then Ok ((firstn N data, Some IoBufferFull), (skipn N data, t))
+      else Ok ((data, Some (tail_err t)), ([], tail_next t))
+  end.
+
+Definition a_read_line (N : nat) (a : astream) : outcome ((bytes * bool * option ioerr) * astream) :=
+  match a_read_slice N a with
+  | Ok ((line, oe), (data', t')) =>
+      let '(res, rewind) := rl_post line oe in
+      Ok (res, (if rewind then CR :: data' else data', t'))
+  | Panic p => Panic p
+  | OutOfFuel => OutOfFuel
+  end.
+
+Fixpoint a_byte_read_line (N fuel : nat) (acc : bytes) (a : astream)
+  : outcome ((ioerr + bytes) * astream) :=
+  match fuel with
+  | O => OutOfFuel
+  | S k =>
+      match a_read_line N a with
+      | Ok ((l, more, Some e), a') => Ok (inl e, a')
+      | Ok ((l, more, None), a') =>
+          if more then a_byte_read_line N k (acc ++ l) a' else Ok (inr (acc ++ l), a')
+      | Panic p => Panic p
+      | OutOfFuel => OutOfFuel
+      end
+  end.
+
+Fixpoint a_read_lines (N fuel : nat) (a : astream) : outcome (list bytes * ioerr) :=
+  match fuel with
+  | O => OutOfFuel
+  | S k =>
+      match a_byte_read_line N (S k) [] a with
+      | Ok (inl e, _) => Ok ([], e)
+      | Ok (inr l, a') =>
+          match a_read_lines N k a' with
+          | Ok (ls, e) => Ok (l :: ls, e)
+          | o => o
+          end
+      | Panic p => Panic p
+      | OutOfFuel => OutOfFuel
+      end
+  end.
+
+(* ios.StripBOM on a stream: inl err | inr the stream the returned reader delivers *)
+Definition a_strip_bom (a : astream) : (ioerr + astream) :=
+  let '(data, t) := a in
+  match data with
+  | [] => match tail_err t with
+          | IoEOF => inr ([], tail_next t)
+          | e => inl e
+          end
+  | _ => let '(r, size) := decode_rune data in
+         if (r =? 65279)%N then inr (skipn size data, t) else inr (data, t)
+  end.
+
+(* BytesReplacingReader with a one-byte search token *)
+Definition a_replace1 (s : byte) (repl : bytes) (data : bytes) : bytes :=
+  flat_map (fun c => if Byte.eqb c s then repl else [c]) data.
+
+(* the charmap decoder *)
+Definition a_decode (cp : byte -> bytes) (data : bytes) : bytes := flat_map cp data.
